@@ -84,6 +84,8 @@ EXPRS += [
     ("expr", "src/lib.rs", "new_chunk", ("let", "footer_ptr", 1), "new_chunk_footer_at", ("data", "new_size_without_footer")),
     ("expr", "src/lib.rs", "new_chunk", ("let", "ptr", 1), "new_chunk_finger", ("data", "new_size_without_footer")),
     ("expr", "src/lib.rs", "new_chunk", ("let", "allocated_bytes", 1), "new_chunk_allocated_bytes", ("new_size_without_footer",)),
+    # the sentinel test (a whole function): by address
+    ("src/lib.rs", "is_empty"),
     # chunk iteration: what a footer reports as its slice (`self` is the footer, by address)
     ("expr", "src/lib.rs", "as_raw_parts", ("let", "ptr", 1), "chunk_parts_ptr"),
     ("expr", "src/lib.rs", "as_raw_parts", ("let", "len", 1), "chunk_parts_len"),
@@ -339,6 +341,10 @@ FRAMES = [
 ]
 # methods of `self` that are functions of the table when called with one argument
 SELF_FNS = {"is_last_allocation"}
+# zero-argument methods that are functions of the table (called with the receiver as `self`)
+RECV_FNS0 = {"is_empty"}
+# procedures: functions made of statements (let / assignment / while / calls made for their effect)
+PROCS = [("src/lib.rs", "dealloc_chunk_list", "dealloc_chunk_list")]
 CONST_FILE = "src/lib.rs"
 
 
@@ -598,6 +604,58 @@ class Parser:
             return "(ELet %s %s %s)" % (q(x), e, self.stmts_until_close_then(final))
         raise Unsupported("statement in an assigning branch: %r" % tok)
 
+    # -- statements of a procedure: list of Coq stmt terms
+    def proc_stmts(self):
+        out = []
+        while self.peek() != "}":
+            tok = self.peek()
+            if tok in ("debug_assert!", "debug_assert_eq!", "debug_assert_ne!"):
+                self.eat()
+                self.skip_balanced("(", ")")
+                if self.peek() == ";":
+                    self.eat()
+                self.skipped_asserts += 1
+            elif tok == "unsafe" and self.peek(1) == "{":
+                self.eat()
+                self.eat("{")
+                out += self.proc_stmts()
+                self.eat("}")
+            elif tok == "while":
+                self.eat()
+                c = self.expr(no_struct=True)
+                self.eat("{")
+                body = self.proc_stmts()
+                self.eat("}")
+                out.append("SWhile %s [%s]" % (c, "; ".join(body)))
+            elif tok == "let":
+                self.eat()
+                if self.peek() == "mut":
+                    self.eat()
+                if self.kind() != "id" or self.peek(1) not in ("=", ":"):
+                    raise Unsupported("pattern in let")
+                x = self.eat()
+                if self.peek() == ":":
+                    self.eat()
+                    self.skip_type()
+                self.eat("=")
+                e = self.expr()
+                self.eat(";")
+                out.append("SLet %s %s" % (q(x), e))
+            elif self.kind() == "id" and self.peek(1) == "=":
+                x = self.eat()
+                self.eat("=")
+                e = self.expr()
+                self.eat(";")
+                out.append("SSet %s %s" % (q(x), e))
+            elif self.kind() == "id" and self.peek(1) == "(":
+                f = self.eat()
+                a = self.args()
+                self.eat(";")
+                out.append("SDo %s [%s]" % (q(f), "; ".join(a)))
+            else:
+                raise Unsupported("statement %r" % tok)
+        return out
+
     # -- expressions
     def expr(self, no_struct=False, level=0):
         if level == len(BINOPS):
@@ -661,6 +719,8 @@ class Parser:
                         # the buffer pointer of the collection itself (as_ptr on anything else is the identity
                         # on addresses): the same field as as_mut_ptr
                         e = "(EMeth0 %s %s)" % (e, q("as_mut_ptr"))
+                    elif len(a) == 0 and m in RECV_FNS0 and e != '(EVar "self")':
+                        e = "(ECall1 %s %s)" % (q(m), e)
                     elif len(a) == 0:
                         e = "(EMeth0 %s %s)" % (e, q(m))
                     elif len(a) == 1 and e == '(EVar "self")' and m in SELF_FNS:
@@ -1259,7 +1319,10 @@ def translate(repo):
                     raise Unsupported("trailing tokens")
             else:
                 term = extract_expr(toks, locator, inputs)
-            fns.append((newname, param_names(params), fix_path_vars(term)))
+            ps = param_names(params)
+            if locator is None and fname in RECV_FNS0:
+                ps = ["self"] + ps          # called as a function of its receiver
+            fns.append((newname, ps, fix_path_vars(term)))
         except (Unsupported, ValueError, IndexError) as e:
             notes.append("%s: NOT TRANSLATED (%s)" % (newname, e))
     consts = []
@@ -1327,6 +1390,26 @@ def emit(repo):
         out.append("Definition %s : list (string * bool) := [" % name)
         out.append(";\n".join("  (%s, %s)" % (q(l), "true" if ok else "false") for l, ok, pth in frames if pred(pth)))
         out.append("].")
+    procs = []
+    for path, fname, newname in PROCS:
+        try:
+            src = strip_comments(open(os.path.join(repo, path)).read())
+            found = find_fn(src, fname)
+            if not found:
+                raise Unsupported("function not found")
+            params, body = found
+            p = Parser(tokenize(body))
+            p.eat("{")
+            ss = p.proc_stmts()
+            p.eat("}")
+            if p.i != len(p.t):
+                raise Unsupported("trailing tokens")
+            procs.append((newname, param_names(params), ss))
+        except (Unsupported, ValueError, IndexError, OSError) as e:
+            out.insert(2, "   - proc %s: NOT TRANSLATED (%s)" % (newname, e))
+    out.append("Definition src_procs : list (string * procdef) := [")
+    out.append(";\n".join('  (%s, mkProc [%s]\n    [%s])' % (q(n), "; ".join(q(x) for x in ps), ";\n     ".join(fix_path_vars(x) for x in ss)) for n, ps, ss in procs))
+    out.append("].")
     out.append("Definition src_consts : list (string * expr) := [")
     out.append(";\n".join("  (%s, %s)" % (q(n), t) for n, t in consts))
     out.append("].")
